@@ -334,7 +334,8 @@ def run(tier, seed, replay=None):
         for s in REL_TARGETS:
             canon.append(("/".join(s), [sc.unsub(x) for x in spellings_rel(s, sc.cwd)], "redirect"))
             if len(s) > 1:
-                canon.append(("/".join(s), [sc.unsub(x) for x in spellings_rel(s, sc.cwd) if "/" in x], "command"))
+                # in argument position a token with "://" may be a URL (curl ...): not a path argument
+                canon.append(("/".join(s), [sc.unsub(x) for x in spellings_rel(s, sc.cwd) if "/" in x and "://" not in x], "command"))
         for s in HOME_TARGETS:
             sp = [sc.unsub(x) for x in spellings_home(s, sc.home)]
             canon.append(("~/" + "/".join(s), sp, "redirect"))
